@@ -3,6 +3,24 @@
 import json, os
 HERE = os.path.dirname(os.path.dirname(os.path.abspath(__file__)))
 CHECKS = {
+ "C10": dict(technique="polynomial-identity monitor on the real arithmetic functions with generic symbolic components, exhaustive over operand lengths",
+             text="Exhaustive over the length space (0..3)^3 with generic symbolic components: every identity of the statement is decided on the returned components by expand()==0 and by random rational evaluation (one execution stands for all component values); plus seeded numeric draws per length combination and the refusal cases (different CoordinateSystem objects, non-Cartesian operands, >3 components) for all length pairs.",
+             note="Trusted: SymPy expand / Rational arithmetic.", ref="§4 C10"),
+ "C11": dict(technique="own numeric coordinate transforms as reference for rebase, dot/magnitude/scale and scalar-field values",
+             text="Exploration: random vectors (0..3 components, ints/rationals/floats/symbols) and scalar fields are re-expressed between the Cartesian and the cylindrical/spherical system; components, there-and-back, dot products, magnitudes, scalings (negative scalars), projections and field values at corresponding points are compared with transforms written from the definitions; cylindrical<->spherical conversion and foreign point kinds must be refused.",
+             note="Trusted: vf/geom_ref.py (core convention: spherical = (r, azimuth, polar)).", ref="§4 C11"),
+ "C12": dict(technique="operator identities on generic undefined-function fields + Cartesian reference operators projected on the local basis",
+             text="Symbolic executions with generic undefined functions decide curl(grad f)=0 and div(curl F)=0 for all smooth fields in each system; random concrete fields compare the library's cylindrical/spherical gradient, divergence and curl with own Cartesian operators (plain sympy.diff) projected on the local orthonormal basis at random points; fields with 0..2 components must equal the zero-padded field, 4 components are refused by curl.",
+             note="Trusted: sympy.diff, vf/geom_ref.py local bases.", ref="§4 C12"),
+ "C13": dict(technique="route-vs-route comparison of the library's integral routines + own quadrature + metamorphic reparametrisation",
+             text="Exploration: Stokes (circles/ellipses with offset centres, tilted discs, cones, rectangles), Green and Gauss set-ups on random polynomial(/trig) fields with non-constant curl and divergence, a third with generic symbolic coefficients; both library routes must agree with each other and with mpmath quadrature of the hand-pulled-back integrand; results must be free of coordinate/parameter symbols, invariant under t->2t, t->t^2 and negated by orientation reversal.",
+             note="Trusted: mpmath.quad, sympy subs/diff for the pull-back. SymPy integrate stalls are inconclusive.", ref="§4 C13"),
+ "C15": dict(technique="own geometric model as reference for the conversion tables at random points, all pairs and triples",
+             text="Exploration: at random points of each domain (all octants) the twelve conversion tables are checked against each other and against the geometry: scalar round trips, direct == via third system, base-vector matrices orthonormal with det +1 and inverse == transposed reverse, convert_point/convert_vector preserve Cartesian position/components, Lame coefficients == |dr/dq| (library map and finite differences); wrong arity / non-systems refused.",
+             note="Trusted: the geometric model in vf/checks/c15.py (ISO convention).", ref="§4 C15"),
+ "C16": dict(technique="R^3 interpretation of the returned equations against the generated equation",
+             text="Exploration: generated vector equations (coefficients -1, sums, quotients, products needing expansion; cross products and vector functions among the terms; unknown in several expanded terms), every unknown, both reduce_factor modes, expression and Eq input: L-R must equal expr/coeff (or expr) up to sign in R^3 at random assignments and L must be the unknown; solutions substituted back; refusals; solve_for_scalar solutions (incl. radical equations with extraneous roots) substituted into the equation; apply() sides.",
+             note="Trusted: vf/vecsem.py, 3 random assignments per case.", ref="§4 C16"),
  "C01": dict(technique="reference dimension algebra + unit-rescaling metamorphic monitor over every equation object after the real imports",
              text="Exhaustive over the catalogue of the working tree: every module is really imported and every published Relational (or list of them) is typed with an independent exponent-vector algebra (declared dimensions; strict exp/trig/hyperbolic arguments and exponents; matrices entrywise with the sum-over-k rule); numerically evaluable equations are additionally checked by rescaling the seven base units (two oracles; their disagreement is reported as a machinery defect, never as a violation). Because dimension is a property of the formula one walk covers all values.",
              note="Trusted: vf/refdim.py node rules (= the statement), SymPy dimsys_SI for expanding declared dimensions.", ref="§4 C01"),
